@@ -76,6 +76,7 @@ def main():
     ap.add_argument("--san", action="store_true")
     ap.add_argument("--pygrid", type=int, default=6 * 3600 + 1800)
     ap.add_argument("--targets", default="python,arduino")
+    ap.add_argument("--granularity", type=int, default=0, help="compile with --until_at_granularity / --offset_granularity of this many seconds")
     ap.add_argument("--strict", action="store_true", help="compile with the compiler's --strict option (misaligned values remove the zone instead of truncating it)")
     a = ap.parse_args()
     tzpipe.attach_contracts()
@@ -90,9 +91,9 @@ def main():
         elif a.kind == "recon-b":
             c03lib.check_program(v, "recon-zonedb", recon("zonedb"), work, scopes=("basic",), stats=st, grid=a.grid, nbhd=a.nbhd, py_grid_s=a.pygrid, san=a.san, targets=targets)
         elif a.kind == "features":
-            c03lib.check_program(v, "features" + ("+strict" if a.strict else ""), features(), work, stats=st, grid=a.grid, nbhd=a.nbhd, py_grid_s=a.pygrid, san=a.san, targets=targets, strict=a.strict)
+            c03lib.check_program(v, "features" + ("+strict" if a.strict else "") + ("+granularity%d" % a.granularity if a.granularity else ""), features(), work, stats=st, grid=a.grid, nbhd=a.nbhd, py_grid_s=a.pygrid, san=a.san, targets=targets, strict=a.strict, granularity=a.granularity or None)
         elif a.kind == "unsupported":
-            c03lib.check_program(v, "unsupported-constructs" + ("+strict" if a.strict else ""), unsupported(), work, stats=st, grid=a.grid, nbhd=a.nbhd, py_grid_s=a.pygrid, san=a.san, targets=targets, strict=a.strict)
+            c03lib.check_program(v, "unsupported-constructs" + ("+strict" if a.strict else "") + ("+granularity%d" % a.granularity if a.granularity else ""), unsupported(), work, stats=st, grid=a.grid, nbhd=a.nbhd, py_grid_s=a.pygrid, san=a.san, targets=targets, strict=a.strict, granularity=a.granularity or None)
         elif a.kind == "tz2025b":
             p, pz = tz2025b(True)
             info["percent_z_zones_left"] = sorted(pz)
